@@ -12,7 +12,7 @@ match" and "the values differ" are both explored without any assumption on c1 / 
 import asyncio
 
 from bumble import crypto, hci, smp
-from pyvc.contracts import Any, Bool, Bytes, Callback, Const, Event, Inst, Int, IntRange, OneOf, Opaque, contract, implies, model
+from pyvc.contracts import Any, Bool, Bytes, Callback, Const, Event, Inst, Int, IntRange, OneOf, Opaque, contract, implies, lemma, model
 
 ENVIRONMENT = [
     'phase-2 handlers: the cryptographic functions (crypto.c1, s1, f4, f5, f6, g2, r) are stubs returning arbitrary '
@@ -387,4 +387,76 @@ contract(
     modifies=['self.completed', 'self.peer_public_key_x', 'self.peer_public_key_y', 'self.dh_key', 'self.r'] + H_MODIFIES_OUT,
     inline=H_INLINE,
     stubs=CRYPTO_STUBS,
+)
+
+
+# ---------------------------------------------------------------------------
+# key distribution gating: on_pairing (the only caller of Manager.on_pairing) is reached only when every key the
+# negotiated distribution announces has arrived, each once, over an encrypted link; anything else fails the pairing
+# ---------------------------------------------------------------------------
+def rec_complete(ghost):
+    ghost.completions = ghost.completions + 1
+
+
+DIST_CLASSES = (smp.SMP_Encryption_Information_Command, smp.SMP_Master_Identification_Command, smp.SMP_Identity_Information_Command,
+                smp.SMP_Identity_Address_Information_Command, smp.SMP_Signing_Information_Command)
+model('ghost:Link#k', fields=dict(is_encrypted=Bool, transport=OneOf(smp.PhysicalTransport.LE, smp.PhysicalTransport.BR_EDR)))
+model(
+    'bumble.smp:Session#k',
+    # (a responder's session that has not failed yet: the failure path itself is the contract of on_pairing_failure)
+    fields=dict(manager=Inst('ghost:Manager#h'), connection=Inst('ghost:Link#k'), completed=Const(False), pairing_result=Const(None),
+                sc=Bool, peer_expected_distributions=Const([])),
+    methods={'on_peer_key_distribution_complete': Callback('on_peer_key_distribution_complete', effect=rec_complete)},
+)
+SESSION_K = Inst('bumble.smp:Session#k')
+K_GHOST = dict(H_GHOST, completions=Int)
+model('ghost:Control#k', fields={}, methods={'completions': Callback('completions', effect=lambda ghost: ghost.completions),
+                                             'failed': Callback('failed', effect=lambda ghost: ghost.n_failed_cmd)})
+
+
+def expected_commands(sc, le, flags):
+    """Vol 3 Part H 3.6.1 / 2.4.3: what the peer sends for a key distribution field -- EncKey: LTK then EDIV/Rand
+    (legacy pairing on LE only: with Secure Connections the LTK is not distributed, on BR/EDR it is derived);
+    IdKey: IRK then identity address; SignKey: CSRK (LinkKey distributes nothing)"""
+    out = []
+    if flags % 2 == 1 and not sc and le:
+        out = out + [smp.SMP_Encryption_Information_Command, smp.SMP_Master_Identification_Command]
+    if (flags // 2) % 2 == 1:
+        out = out + [smp.SMP_Identity_Information_Command, smp.SMP_Identity_Address_Information_Command]
+    if (flags // 4) % 2 == 1:
+        out = out + [smp.SMP_Signing_Information_Command]
+    return out
+
+
+def lemma_key_distribution(ctl, s, flags, extra):
+    """the real compute_peer_expected_distributions, then the real check_key_distribution fed with the announced
+    commands in the order of the specification, then with one more command `extra`"""
+    s.compute_peer_expected_distributions(flags)
+    want = expected_commands(s.sc, s.connection.transport == smp.PhysicalTransport.LE, flags)
+    assert s.peer_expected_distributions == want, 'expected-commands-are-the-announced-keys'
+    n = 0
+    for c in want:
+        assert ctl.completions() == 0, 'not-complete-before-the-last-key'
+        s.check_key_distribution(c)
+        n = n + 1
+    if len(want) > 0:
+        assert ctl.completions() == (1 if s.connection.is_encrypted else 0), 'complete-exactly-once-after-the-last-key'
+        assert ctl.failed() == (0 if s.connection.is_encrypted else len(want)), 'unencrypted-link-fails-every-key'
+    # a key that was not announced (or is sent a second time) fails the pairing and completes nothing
+    before = ctl.completions()
+    failed_before = ctl.failed()
+    s.check_key_distribution(extra)
+    assert ctl.completions() == before, 'unexpected-key-completes-nothing'
+    assert ctl.failed() == failed_before + 1, 'unexpected-key-fails-the-pairing'
+
+
+lemma(
+    'key_distribution_gate',
+    lemma_key_distribution,
+    prop='C13',
+    params=dict(ctl=Inst('ghost:Control#k'), s=SESSION_K, flags=OneOf(0, 1, 2, 3, 4, 5, 6, 7, 8, 15), extra=OneOf(*DIST_CLASSES)),
+    ghost=K_GHOST,
+    requires=lambda ghost: [ghost.completions == 0, ghost.n_failed_cmd == 0],
+    inline=['Session.compute_peer_expected_distributions', 'Session.check_key_distribution', 'Session.send_pairing_failed', 'Session.send_command',
+            'Session.on_pairing_failure', 'ProtocolError.__init__', 'BaseError.__init__'],
 )
